@@ -9,6 +9,7 @@
 #include "../../refs/murmur_ref.hpp"
 #include "fstring_ops.hpp"
 
+#include <deque>
 #include <list>
 #include <memory>
 #include <streambuf>
@@ -252,7 +253,12 @@ namespace fsw
             if (sel < 11) return static_cast<CT>('a' + raw % 4);
             if (sel == 11) return static_cast<CT>(' ');
             if (sel == 12) return static_cast<CT>(0x80 + raw % 0x80);
-            if (sel == 13 && !is_char) return static_cast<CT>(sizeof(CT) >= 4 && (raw & 1) ? 0x10000 + raw % 0xFFFFF : 0x100 + raw % 0xF000);
+            if (sel == 13 && !is_char)
+            {
+                if (sizeof(CT) >= 4 && (raw & 3) == 3) return static_cast<CT>(0x80000000u + (raw >> 2) % 0x100);    // top bit set: negative where CT is signed (wchar_t)
+                if (sizeof(CT) == 2 && (raw & 3) == 3) return static_cast<CT>(0xFF00u + (raw >> 2) % 0x100);
+                return static_cast<CT>(sizeof(CT) >= 4 && (raw & 1) ? 0x10000 + raw % 0xFFFFF : 0x100 + raw % 0xF000);
+            }
             if (sel == 14 && allow_nul && nul_on) return CT();
             return static_cast<CT>('w' + raw % 4);
         }
@@ -264,7 +270,39 @@ namespace fsw
             for (size_t i = 0; i < len; ++i) s.push_back(mkch(r.next(), allow_nul));
             return s;
         }
+        // an iterator range over the characters of arg: forward-only (list), random access but not contiguous (a deque that
+        // crosses a block boundary, reverse iterators), contiguous (vector)
+        template <class F> static void with_range(uint64_t kind, const Str& arg, F f)
+        {
+            switch (kind % 4)
+            {
+            case 0: { std::list<CT> l(arg.begin(), arg.end()); f(l.begin(), l.end()); } break;
+            case 1:
+                {
+                    std::deque<CT> d;
+                    size_t pad = 512 / sizeof(CT) - 2 - static_cast<size_t>((kind >> 2) % 6);     // the range starts just before the end of a block
+                    for (size_t i = 0; i < pad; ++i) d.push_back(CT('#'));
+                    for (CT c : arg) d.push_back(c);
+                    for (size_t i = 0; i < pad; ++i) d.pop_front();
+                    SIM_PROBE("random_access_range_that_is_not_contiguous");
+                    f(d.cbegin(), d.cend());
+                }
+                break;
+            case 2:
+                {
+                    Str r(arg.rbegin(), arg.rend());
+                    auto hp = heap(r, false);
+                    SIM_PROBE("random_access_range_that_is_not_contiguous");
+                    f(std::reverse_iterator<const CT*>(hp.get() + r.size()), std::reverse_iterator<const CT*>(hp.get()));
+                }
+                break;
+            default: { std::vector<CT> v(arg.begin(), arg.end()); f(v.begin(), v.end()); } break;
+            }
+        }
         static bool has_nul(const Str& s) { return s.find(CT()) != Str::npos; }
+        // std::basic_string arguments carry their length: embedded NULs in them are ordinary characters
+        // (except in the whole-string constructor and assign(const string_type&), which follow the C-string convention: modelled, 4.1)
+        static bool sv(unsigned v, unsigned a, unsigned b, unsigned c) { return v == a || v == b || v == c; }
         // exact-size heap copy: ASan sees one byte too many
         static std::unique_ptr<CT[]> heap(const Str& s, bool terminated)
         {
@@ -491,12 +529,11 @@ namespace fsw
             size_t nabs = v == 1 ? cnt_abs(st.a) : n;
             size_t ppos = pos_any(st.b, plen);
             size_t pcnt = cnt_clamp(st.a >> 5, plen - std::min(ppos, plen));
-            Str arg = mkstr(st.b, n, v == 7 || v == 10 || v == 13);
+            Str arg = mkstr(st.b, n, v == 7 || v == 10 || v == 13 || sv(v, 5, 6, 6));
             size_t apos = pos_any(st.b >> 7, arg.size());
             size_t acnt = cnt_clamp(st.a >> 9, arg.size() - std::min(apos, arg.size()));
             CT ch = mkch(st.b, true);
             auto hp = heap(arg, v == 8);
-            std::list<CT> lst(arg.begin(), arg.end());
             CT y = mkch(st.b >> 8, false), z = mkch(st.b >> 16, false);
             if (v == 0) { if (N == 255) SIM_PROBE("N255_default_constructed"); }
             mutate(s, [&](auto side) -> Ret {
@@ -512,7 +549,7 @@ namespace fsw
                 case 7: last_add = n; side.construct(static_cast<const CT*>(hp.get()), n); break;
                 case 8: side.construct(static_cast<const CT*>(hp.get())); break;
                 case 9: with_il(n, nz(ch), y, z, [&](IL il) { side.construct(il); }); break;
-                case 10: side.construct(lst.begin(), lst.end()); break;
+                case 10: with_range(st.d, arg, [&](auto b, auto e) { side.construct(b, e); }); break;
                 case 11: side.construct(side.at(pi)); break;
                 case 12: side.construct(side.mv(side.at(pi))); break;
                 default: { SPState<CT> sp{arg.data(), 0, arg.size()}; last_add = n; SIM_PROBE("single_pass_input_range"); side.construct(SinglePass<CT>(&sp), SinglePass<CT>()); } break;
@@ -568,13 +605,12 @@ namespace fsw
             size_t n = cnt_add(st.a, N);
             size_t ppos = pos_any(st.b, plen);
             size_t pcnt = cnt_clamp(st.a >> 5, plen - std::min(ppos, plen));
-            Str arg = mkstr(st.b, n, v == 3 || v == 6 || v == 14);
+            Str arg = mkstr(st.b, n, v == 3 || v == 6 || v == 14 || sv(v, 10, 11, 11));
             size_t apos = pos_any(st.b >> 7, arg.size());
             size_t acnt = cnt_clamp(st.a >> 9, arg.size() - std::min(apos, arg.size()));
             CT ch = mkch(st.b, true), y = mkch(st.b >> 8, false), z = mkch(st.b >> 16, false);
             if (LAYOUT == L_STRLEN) ch = nz(ch);
             auto hp = heap(arg, v == 4);
-            std::list<CT> lst(arg.begin(), arg.end());
             mutate(s, [&](auto side) -> Ret {
                 auto& t = side.tgt();
                 switch (v)
@@ -585,7 +621,7 @@ namespace fsw
                 case 3: last_add = n; t.assign(static_cast<const CT*>(hp.get()), n); break;
                 case 4: t.assign(static_cast<const CT*>(hp.get())); break;
                 case 5: with_il(n, nz(ch), y, z, [&](IL il) { t.assign(il); }); break;
-                case 6: t.assign(lst.begin(), lst.end()); break;
+                case 6: with_range(st.d, arg, [&](auto b, auto e) { t.assign(b, e); }); break;
                 case 7: t.assign(side.at(pi)); break;
                 case 8: t.assign(side.mv(side.at(pi))); break;
                 case 9: t.assign(arg); break;
@@ -780,13 +816,12 @@ namespace fsw
             size_t plen = model[pi].size();
             size_t ppos = pos_any(st.b >> 9, plen);
             size_t pcnt = (mode == M_C02) ? cnt_clamp(st.b >> 13, plen - std::min(ppos, plen)) : std::min(cnt_clamp(st.b >> 13, plen - std::min(ppos, plen)), room);
-            Str arg = mkstr(st.b, n, v == 2 || v == 12 || v == 15);
+            Str arg = mkstr(st.b, n, v == 2 || v == 12 || v == 15 || sv(v, 6, 7, 8));
             size_t apos = pos_any(st.b >> 7, arg.size());
             size_t acnt = cnt_clamp(st.a >> 9, arg.size() - std::min(apos, arg.size()));
             CT ch = mkch(st.c >> 3, LAYOUT != L_STRLEN), y = mkch(st.b >> 8, false), z = mkch(st.b >> 16, false);
             if (LAYOUT == L_STRLEN) ch = nz(ch);
             auto hp = heap(arg, v == 1);
-            std::list<CT> lst(arg.begin(), arg.end());
             if (((v >= 9 && v <= 12) || v == 15) && idx == len) SIM_PROBE("iterator_insert_at_end");
             mutate(s, [&](auto side) -> Ret {
                 auto& t = side.tgt();
@@ -805,7 +840,7 @@ namespace fsw
                 case 9: { last_add = 1; auto it = t.insert(t.cbegin() + di, ch); return side.rv(static_cast<uint64_t>(it - t.begin())); }
                 case 10: { last_add = n; auto it = t.insert(t.cbegin() + di, n, ch); return side.rv(static_cast<uint64_t>(it - t.begin())); }
                 case 11: { uint64_t r = 0; last_add = 3; with_il(n, nz(ch), y, z, [&](IL il) { auto it = t.insert(t.cbegin() + di, il); r = static_cast<uint64_t>(it - t.begin()); }); return side.rv(r); }
-                case 12: { last_add = n; auto it = t.insert(t.cbegin() + di, lst.begin(), lst.end()); return side.rv(static_cast<uint64_t>(it - t.begin())); }
+                case 12: { last_add = n; uint64_t r = 0; with_range(st.d, arg, [&](auto b, auto e) { auto it = t.insert(t.cbegin() + di, b, e); r = static_cast<uint64_t>(it - t.begin()); }); return side.rv(r); }
                 case 13: last_add = an; t.insert(idx, static_cast<const CT*>(t.data()) + ak, an); break;
                 case 14: last_add = len - ak; t.insert(idx, static_cast<const CT*>(t.c_str()) + ak); break;
                 case 15: { SPState<CT> sp{arg.data(), 0, arg.size()}; last_add = n; SIM_PROBE("single_pass_input_range");
@@ -863,13 +898,12 @@ namespace fsw
             size_t plen = model[pi].size();
             size_t ppos = pos_any(st.a, plen);
             size_t pcnt = (mode == M_C02) ? cnt_clamp(st.a >> 13, plen - std::min(ppos, plen)) : std::min(cnt_clamp(st.a >> 13, plen - std::min(ppos, plen)), room);
-            Str arg = mkstr(st.b, n, v == 7 || v == 10 || v == 13);
+            Str arg = mkstr(st.b, n, v == 7 || v == 10 || v == 13 || sv(v, 4, 5, 6));
             size_t apos = pos_any(st.b >> 7, arg.size());
             size_t acnt = cnt_clamp(st.a >> 9, arg.size() - std::min(apos, arg.size()));
             CT ch = mkch(st.c >> 3, LAYOUT != L_STRLEN), y = mkch(st.b >> 8, false), z = mkch(st.b >> 16, false);
             if (LAYOUT == L_STRLEN) ch = nz(ch);
             auto hp = heap(arg, v == 8);
-            std::list<CT> lst(arg.begin(), arg.end());
             mutate(s, [&](auto side) -> Ret {
                 auto& t = side.tgt();
                 switch (v)
@@ -884,7 +918,7 @@ namespace fsw
                 case 7: last_add = n; t.append(static_cast<const CT*>(hp.get()), n); break;
                 case 8: last_add = n; t.append(static_cast<const CT*>(hp.get())); break;
                 case 9: last_add = 3; with_il(n, nz(ch), y, z, [&](IL il) { t.append(il); }); break;
-                case 10: last_add = n; t.append(lst.begin(), lst.end()); break;
+                case 10: last_add = n; with_range(st.d, arg, [&](auto b, auto e) { t.append(b, e); }); break;
                 case 11: last_add = an; t.append(static_cast<const CT*>(t.data()) + ak, an); break;
                 case 12: last_add = len - ak; t.append(static_cast<const CT*>(t.c_str()) + ak); break;
                 case 13: { SPState<CT> sp{arg.data(), 0, arg.size()}; last_add = n; SIM_PROBE("single_pass_input_range"); t.append(SinglePass<CT>(&sp), SinglePass<CT>()); } break;
@@ -904,7 +938,7 @@ namespace fsw
             size_t len = model[s].size(), room = N - std::min(len, N);
             size_t ak = pos_in(st.c >> 11, len);
             size_t n = cnt_add(st.b, room);
-            Str arg = mkstr(st.b, n, false);
+            Str arg = mkstr(st.b, n, sv(v, 1, 1, 1));
             CT ch = mkch(st.c >> 3, LAYOUT != L_STRLEN), y = mkch(st.b >> 8, false), z = mkch(st.b >> 16, false);
             if (LAYOUT == L_STRLEN) ch = nz(ch);
             auto hp = heap(arg, true);
@@ -953,7 +987,7 @@ namespace fsw
             size_t p1 = pos_any(st.a, len), c1 = cnt_clamp(st.a >> 11, len - std::min(p1, len));
             size_t plen = model[pi].size();
             size_t p2 = pos_any(st.b, plen), c2 = cnt_clamp(st.b >> 11, plen - std::min(p2, plen));
-            Str arg = similar(s, st.b >> 3, v == 10);
+            Str arg = similar(s, st.b >> 3, v == 10 || sv(v, 4, 5, 6) || sv(v, 7, 7, 7));
             size_t ap = pos_any(st.b >> 5, arg.size()), ac = cnt_clamp(st.b >> 17, arg.size() - std::min(ap, arg.size()));
             size_t pc = static_cast<size_t>((st.b >> 9) % (arg.size() + 1));
             auto hp = heap(arg, v != 10);
@@ -1009,13 +1043,12 @@ namespace fsw
             size_t plen = model[pi].size();
             size_t ppos = pos_any(st.b >> 9, plen);
             size_t pcnt = (mode == M_C02) ? cnt_clamp(st.b >> 13, plen - std::min(ppos, plen)) : std::min(cnt_clamp(st.b >> 13, plen - std::min(ppos, plen)), room);
-            Str arg = mkstr(st.b, n, v == 8 || v == 9 || v == 15 || v == 20);
+            Str arg = mkstr(st.b, n, v == 8 || v == 9 || v == 15 || v == 20 || sv(v, 4, 5, 6) || sv(v, 7, 7, 7));
             size_t apos = pos_any(st.b >> 7, arg.size());
             size_t acnt = cnt_clamp(st.c >> 9, arg.size() - std::min(apos, arg.size()));
             CT ch = mkch(st.c >> 3, LAYOUT != L_STRLEN), y = mkch(st.b >> 8, false), z = mkch(st.b >> 16, false);
             if (LAYOUT == L_STRLEN) ch = nz(ch);
             auto hp = heap(arg, v == 10 || v == 11);
-            std::list<CT> lst(arg.begin(), arg.end());
             if (its && first == last) SIM_PROBE("iterator_replace_empty_range");
             mutate(s, [&](auto side) -> Ret {
                 auto& t = side.tgt();
@@ -1040,7 +1073,7 @@ namespace fsw
                 case 12: t.replace(pos, cnt, n, ch); break;
                 case 13: t.replace(f, l, n, ch); break;
                 case 14: last_add = 3; with_il(n, nz(ch), y, z, [&](IL il) { t.replace(f, l, il); }); break;
-                case 15: t.replace(f, l, lst.begin(), lst.end()); break;
+                case 15: with_range(st.d, arg, [&](auto b, auto e) { t.replace(f, l, b, e); }); break;
                 case 16: last_add = an; t.replace(pos, cnt, static_cast<const CT*>(t.data()) + ak, an); break;
                 case 17: last_add = an; t.replace(f, l, static_cast<const CT*>(t.data()) + ak, an); break;
                 case 18: last_add = len - ak; t.replace(pos, cnt, static_cast<const CT*>(t.c_str()) + ak); break;
@@ -1062,7 +1095,7 @@ namespace fsw
             FS_SCOPE(family, pi == s && v <= 1);
             size_t len = model[s].size();
             size_t pos = pos_find(st.a, len);
-            Str arg = similar(s, st.b, v == 4);
+            Str arg = similar(s, st.b, v == 4 || sv(v, 2, 3, 3));
             size_t pc = static_cast<size_t>((st.b >> 40) % (arg.size() + 1));
             if ((st.b >> 38) & 1) pc = arg.size();
             CT ch = arg.empty() ? mkch(st.b, false) : arg[0];
@@ -1152,7 +1185,7 @@ namespace fsw
             if (v >= 30 && !alias_on) v -= 24;
             FS_SCOPE("relop", (pi == s && v < 6) || v >= 30);
             unsigned o = v % 6, shape = v / 6;
-            Str arg = similar(s, st.b, false);
+            Str arg = similar(s, st.b, sv(v, 3, 4, 4));
             auto hp = heap(arg, true);
             mutate(s, [&](auto side) -> Ret {
                 const auto& t = side.tgt();
